@@ -75,11 +75,18 @@ const WaitOptionalTag = "!wait-optional"
 // should be optional with an optional DAG dependency.
 const SoftOptionalTag = "!soft-optional"
 
-func buildExpression(data yaml.Node, path []string) (expressions.Expression, error) {
+func buildExpression(data yaml.Node, path []string) (expr expressions.Expression, err error) {
 	if data.Type() != yaml.TypeIDString {
 		return nil, fmt.Errorf("%s found on non-string node at %s", data.Tag(), strings.Join(path, " -> "))
 	}
-	expr, err := expressions.New(data.Value())
+	defer func() {
+		// The expression parser panics on some malformed expressions, for example `0!`.
+		if r := recover(); r != nil {
+			expr = nil
+			err = fmt.Errorf("failed to compile expression at %s (%v)", strings.Join(path, " -> "), r)
+		}
+	}()
+	expr, err = expressions.New(data.Value())
 	if err != nil {
 		return nil, fmt.Errorf("failed to compile expression at %s (%w)", strings.Join(path, " -> "), err)
 	}
